@@ -2,4 +2,7 @@ package main
 
 import "github.com/benhoyt/goawk/verifharness/c01"
 
-func init() { props["C01"] = &Prop{Replay: c01.Replay, Record: c01.Record, Finish: c01.Finish} }
+func init() {
+	props["C01"] = &Prop{Replay: c01.Replay, Record: c01.Record, Finish: c01.Finish,
+		Modes: map[string]func([]string) int{"vmdump": c01.VMDumpMode}}
+}
